@@ -49,6 +49,9 @@ def _family() -> dict[str, dict[str, Any]]:
     add("cond_in_while", lambda n, x: lax.while_loop(lambda s: s[0] < n, lambda s: (s[0] + 1, lax.cond(s[0] % 2 == 0, lambda v: v + 1.0, lambda v: v * 2.0, s[1])), (jnp.int32(0), x))[1], [((), I32), ((3,), F32)], [[I32(n), v3] for n in (0, 1, 2, 5)])
     add("while_nested", lambda n, m, x: lax.while_loop(lambda s: s[0] < n, lambda s: (s[0] + 1, lax.while_loop(lambda t: t[0] < m, lambda t: (t[0] + 1, t[1] * 1.1 + 0.1), (jnp.int32(0), s[1]))[1]), (jnp.int32(0), x))[1], [((), I32), ((), I32), ((3,), F32)], [[I32(n), I32(m), v3] for n, m in ((0, 0), (0, 3), (2, 0), (1, 1), (3, 2))])
     add("while_vmapped", lambda x: jax.vmap(lambda r: lax.while_loop(lambda s: (s[1].sum() < 4.0) & (s[0] < 20), lambda s: (s[0] + 1, s[1] + 0.7), (jnp.int32(0), r))[1])(x), [((3, 2), F32)], [[np.array(a, F32)] for a in ([[0, 0], [1, 1], [5, 5]], [[9, 9], [9, 9], [9, 9]], [[0, 0], [0, 0], [0, 0]])])
+    add("while_vmapped_nonmonotone_exit", lambda x: jax.vmap(lambda v: lax.while_loop(lambda s: (s != 3) & (s < 6), lambda s: s + 1, v))(x), [((4,), I32)], [[np.array(a, I32)] for a in ([1, 1, 1, 1], [3, 5, 1, 2], [0, 2, 3, 4], [6, 7, 3, 3])])
+    add("while_vmapped_nonmonotone_two_carries", lambda x: jax.vmap(lambda v: lax.while_loop(lambda s: (s[0] != 3) & (s[0] < 6), lambda s: (s[0] + 1, s[1] + 1.5), (v, jnp.float32(0.0))))(x), [((4,), I32)], [[np.array(a, I32)] for a in ([3, 5, 1, 2], [0, 2, 3, 4])])
+    add("while_vmapped_float_band_exit", lambda x: jax.vmap(lambda v: lax.while_loop(lambda s: ((s < 2.0) | (s > 3.0)) & (s < 8.0), lambda s: s + 1.25, v))(x), [((4,), F32)], [[np.array(a, F32)] for a in ([0.0, 1.0, 2.5, 7.0], [0.9, 3.5, 9.0, -1.0])])
     # ---- fori_loop ----------------------------------------------------------
     for lo, hi in ((0, 0), (0, 1), (0, 4), (2, 5), (3, 3), (5, 2), (-2, 1)):
         add(f"fori_static_{lo}_{hi}", (lambda lo, hi: lambda x: lax.fori_loop(lo, hi, lambda i, v: v * 1.1 + i, x))(lo, hi), [((3,), F32)], [[v3], [np.zeros(3, F32)]])
@@ -148,7 +151,7 @@ def _run_steer(fn, sig, feeds, dp, name, rec, fam, expect_export=True) -> str:
     for f, ref in zip(feeds, refs):
         if ref is None:
             continue
-        steer = ",".join(str(np.asarray(a).tolist())[:28] for a in f if np.asarray(a).ndim == 0 or np.asarray(a).size <= 3)[:70]
+        steer = ",".join(str(np.asarray(a).tolist())[:28] for a in f if np.asarray(a).ndim == 0 or np.asarray(a).size <= 6)[:90]
         try:
             got = ortrun.run(sess, ortrun.build_feed(sess, f))
         except ortrun.OrtRunError as exc:
